@@ -307,6 +307,44 @@ func runC04(e *Engine, r *Report) {
 				return
 			}
 			nStores++
+			// the stored value is computed by a predicate helper: every way it
+			// returns true must establish both facts inside the helper
+			if hc, isCall := st.Val.(*ssa.Call); isCall {
+				if g := hc.Call.StaticCallee(); g != nil && fnPkg(g) == fnPkg(sfa) && len(g.Blocks) > 0 {
+					good := true
+					nret := 0
+					forEachInstr(g, func(x ssa.Instruction) {
+						ret, isR := x.(*ssa.Return)
+						if !isR || len(ret.Results) == 0 {
+							return
+						}
+						v := retOperand(ret, 0)
+						if cb, isC := isConstBool(v); isC && !cb {
+							return
+						}
+						nret++
+						for _, nd := range needs {
+							nd := nd
+							q := Req{Name: nd.name, Has: func(fs []Fact) bool { return nd.has(fs, st) }}
+							if gd, _ := e.guardedOnAllPaths(x, q); gd {
+								continue
+							}
+							okAlt := true
+							for _, alt := range valueAlternatives(v, true, 0) {
+								if !q.Has(append(append([]Fact{}, FactsAt(x)...), alt...)) {
+									okAlt = false
+								}
+							}
+							if _, isC := isConstBool(v); isC || !okAlt {
+								good = false
+							}
+						}
+					})
+					if good && nret > 0 {
+						return
+					}
+				}
+			}
 			for ni, nd := range needs {
 				if ni == 0 && e.callV(isEmptySS)(st.Val) {
 					// the stored value is the emptiness test itself: true only without a snapshot;
@@ -659,7 +697,15 @@ func runTanSync(e *Engine, r *Report) {
 			}
 			d1 := e.dependsOn(v, func(x ssa.Value) bool { return fieldV(ets)(x) }, 0)
 			d2 := e.dependsOn(v, func(x ssa.Value) bool { return fieldV(ss)(x) }, 0)
-			d3 := ssc != nil && e.dependsOn(v, e.callV(ssc), 0)
+			// the term/vote change test: the helper, or (inlined) comparisons of State.Term and State.Vote
+			stT, stV := e.Field("raftpb", "State", "Term"), e.Field("raftpb", "State", "Vote")
+			cmpOf := func(f *types.Var) func(ssa.Value) bool {
+				return func(x ssa.Value) bool {
+					b, ok := x.(*ssa.BinOp)
+					return ok && (b.Op == token.EQL || b.Op == token.NEQ) && fieldV(f)(b.X) && fieldV(f)(b.Y)
+				}
+			}
+			d3 := (ssc != nil && e.dependsOn(v, e.callV(ssc), 0)) || (e.dependsOn(v, cmpOf(stT), 0) && e.dependsOn(v, cmpOf(stV), 0))
 			if d1 && d2 && d3 {
 				okf = true
 			}
